@@ -19,7 +19,7 @@ def Classified (j : JobObs) : Prop :=
   | none => j.log = logDone ∧ j.saw = false
   | some c =>
     (c < j.start → j.log = logCancelled ∧ (j.pollsAgain = true → j.saw = true)) ∧
-    (j.start < c → c < j.natEnd → j.log = logCancelled ∧ j.saw = true) ∧
+    (j.start < c → c < j.natEnd → j.log = logCancelled ∧ (j.loopRan = true → j.saw = true)) ∧
     (j.ret < c → j.natEnd < c → j.log = logDone ∧ j.saw = false)
 
 /-- what the property says about one observed scenario -/
@@ -61,9 +61,12 @@ theorem classifiedB_iff (j : JobObs) : classifiedB j = true ↔ Classified j := 
           rcases h' with h' | h'
           · rw [hp] at h'; simp at h'
           · exact h'
-      · rcases h2 with h | h
+      · rcases h2 with h | ⟨h, h'⟩
         · exfalso; simp only [Bool.and_eq_false_iff, decide_eq_false_iff_not] at h; omega
-        · exact h
+        · refine ⟨h, fun hp => ?_⟩
+          rcases h' with h' | h'
+          · rw [hp] at h'; simp at h'
+          · exact h'
       · rcases h3 with h | h
         · exfalso; simp only [Bool.and_eq_false_iff, decide_eq_false_iff_not] at h; omega
         · exact h
@@ -78,7 +81,12 @@ theorem classifiedB_iff (j : JobObs) : classifiedB j = true ↔ Classified j := 
           | true => right; exact b hp
         · left; exact hc
       · by_cases hc : j.start < c ∧ c < j.natEnd
-        · right; exact h2 hc.1 hc.2
+        · right
+          obtain ⟨a, b⟩ := h2 hc.1 hc.2
+          refine ⟨a, ?_⟩
+          cases hp : j.loopRan with
+          | false => left; rfl
+          | true => right; exact b hp
         · left; simpa using hc
       · by_cases hc : j.ret < c ∧ j.natEnd < c
         · right; exact h3 hc.1 hc.2
